@@ -194,3 +194,9 @@ def run(ctx):
         fa = su.calls(MM + "from_addresses")
         ok = bool(fa) and "mirrors" in fields_of(su, fa[0].args[2], taint=True) and "address" in "".join(sorted(fields_of(su, fa[0].args[2], taint=True) | {su.local_name(l) for l in [0]})) or (bool(fa) and "mirrors" in fields_of(su, fa[0].args[2], taint=True))
         r4.check(ok, "manager-from-own-address", "Server::startup builds the manager from address.mirrors", "the mirroring manager is not built from the server's own address.mirrors")
+    # ... at every moment: which mirrors a server's traffic is copied to is part of the pool's definition - a reload that changes only a shard's mirrors (another
+    # target index, a mirror removed) rebuilds the pool, or every old and new connection keeps copying by the old mapping (clauses of C14-R3, shared)
+    from common import definition_identity_findings
+    for key_, ok_, okm_, fm_ in definition_identity_findings(F):
+        if key_ in ("Hash:Shard", "Hash:MirrorServerConfig", "hash_value:as-is", "Hash:Pool"):
+            r4.check(ok_, "mirrors-part-of-the-definition:" + key_, okm_, fm_ + " - a mirror re-targeted or removed in the file goes on receiving the traffic of the server it used to mirror")
